@@ -6,7 +6,7 @@ from __future__ import annotations
 from _collections_abc import dict_items, dict_keys, dict_values
 from datetime import datetime
 from enum import Enum
-from typing import Annotated, Any
+from typing import Annotated, Any, Mapping
 
 from pydantic import (
     BaseModel,
@@ -17,6 +17,8 @@ from pydantic import (
     PrivateAttr,
     model_serializer,
 )
+
+from typing_extensions import Self
 
 from workflows.context.serializers import JsonSerializer
 from workflows.context.utils import import_module_from_qualified_name
@@ -79,6 +81,16 @@ class DictLikeModel(BaseModel):
             super().__setattr__(name, value)
         else:
             self._data.__setitem__(name, value)
+
+    def model_copy(
+        self, *, update: Mapping[str, Any] | None = None, deep: bool = False
+    ) -> Self:
+        copied = super().model_copy(update=update, deep=deep)
+        if not deep:
+            # pydantic's shallow copy shares private attribute values; the dynamic
+            # fields live in `_data`, so give the copy its own top-level dict.
+            copied._data = dict(self._data)
+        return copied
 
     def __getitem__(self, key: str) -> Any:
         return self._data[key]
